@@ -48,7 +48,15 @@ func Known(st *Stats, sig string) bool {
 // marker line is what the driver turns into the VIOLATION line.
 func Fail(t TB, sig string, format string, args ...any) {
 	t.Helper()
+	Announce(sig, format, args...)
+	t.Fatalf("[%s] %s", sig, fmt.Sprintf(format, args...))
+}
+
+// Announce prints the violation marker (once per signature and process) and arms the watchdog;
+// engines that must clean up a bubble before aborting call Announce, clean up, then Fatalf.
+func Announce(sig string, format string, args ...any) {
 	msg := fmt.Sprintf(format, args...)
+	noteFailure()
 	if _, dup := printed.LoadOrStore(sig, true); !dup {
 		one := strings.ReplaceAll(msg, "\n", " | ")
 		if len(one) > 4000 {
@@ -56,10 +64,22 @@ func Fail(t TB, sig string, format string, args ...any) {
 		}
 		fmt.Fprintf(os.Stdout, "VKIT-VIOLATION sig=%s msg=%s\n", sig, one)
 	}
-	t.Fatalf("[%s] %s", sig, msg)
 }
 
 // Inconclusive marks the process result as not-a-verdict (driver exit 2).
 func Inconclusive(format string, args ...any) {
 	fmt.Fprintf(os.Stdout, "VKIT-INCONCLUSIVE %s\n", fmt.Sprintf(format, args...))
+}
+
+var printedOther sync.Map
+
+// Other records a divergence whose signature belongs to a different property than the one being
+// checked: it is not reported as a violation of this property.
+func Other(st *Stats, sig string) {
+	if st != nil {
+		st.Metric("other-property:"+sig, 1)
+	}
+	if _, dup := printedOther.LoadOrStore(sig, true); !dup {
+		fmt.Fprintf(os.Stdout, "VKIT-OTHER sig=%s\n", sig)
+	}
 }
